@@ -15,6 +15,8 @@ async fn run_scenario(s: &Scenario, cfg: &str, cyclic: bool) -> (Vec<OpResult>, 
     let mut results = Vec::new();
     let mut judge = Judge::default();
     judge.cyclic = cyclic;
+    let dump = std::env::var("QV_DUMP").is_ok();
+    let nodes = scenario_nodes(s);
     if let Some(cap) = cfg.strip_prefix("db:") {
         let cap: u64 = cap.parse().unwrap();
         let disk = Shared::new();
@@ -26,7 +28,8 @@ async fn run_scenario(s: &Scenario, cfg: &str, cyclic: bool) -> (Vec<OpResult>, 
                 tokio::task::yield_now().await;
                 engine = open_db(&w, &disk, cap, 2).await;
             }
-            let r = run_op(&engine, &w, op).await;
+            let mut r = run_op(&engine, &w, op).await;
+            if dump { r.state = Some(dump_state(&engine, &nodes).await); }
             judge.observe(&s.prog, op, &r, i);
             results.push(r);
         }
@@ -34,7 +37,8 @@ async fn run_scenario(s: &Scenario, cfg: &str, cyclic: bool) -> (Vec<OpResult>, 
     } else {
         let engine = open_mem(&w).await;
         for (i, op) in s.ops.iter().enumerate() {
-            let r = run_op(&engine, &w, op).await;
+            let mut r = run_op(&engine, &w, op).await;
+            if dump { r.state = Some(dump_state(&engine, &nodes).await); }
             judge.observe(&s.prog, op, &r, i);
             results.push(r);
         }
@@ -49,6 +53,8 @@ fn hist(args: &[String]) {
     let shards: usize = args[3].parse().unwrap();
     let cfg = args[4].clone();
     let basic = args.get(5).map(|s| s == "basic").unwrap_or(false);
+    let fwonly = args.get(5).map(|s| s == "fw").unwrap_or(false);
+    let tfcmode = args.get(5).map(|s| s == "tfc").unwrap_or(false);
     let cyclic_all = args.get(5).map(|s| s == "cyclic-all").unwrap_or(false);
     let cyclic_ng = args.get(5).map(|s| s == "cyclic-nogroup").unwrap_or(false);
     let cyclic = cyclic_all || cyclic_ng || args.get(5).map(|s| s == "cyclic").unwrap_or(false);
@@ -66,8 +72,8 @@ fn hist(args: &[String]) {
     let hang_secs: u64 = std::env::var("QV_HANG_SECS").ok().and_then(|s| s.parse().ok()).unwrap_or(20);
     let only: Option<u64> = std::env::var("QV_ONLY").ok().and_then(|s| s.parse().ok());
     for k in 0..n {
-        let g = GenCfg { max_nodes: 10, max_ops: 14, allow_fw: !basic && (!cyclic || cyclic_all), allow_proj: !basic && (!cyclic || cyclic_all), allow_ext: !basic, allow_group: !basic && !cyclic_ng, restarts: cfg != "mem", cyclic };
-        let s = gen_scenario(&mut r, &g);
+        let g = GenCfg { max_nodes: 10, max_ops: 14, allow_fw: !basic && (!cyclic || cyclic_all), allow_proj: !basic && !fwonly && (!cyclic || cyclic_all), allow_ext: !basic && !fwonly, allow_group: !basic && !fwonly && !cyclic_ng, restarts: cfg != "mem", cyclic };
+        let s = if tfcmode { gen_scenario_tfc(&mut r) } else { gen_scenario(&mut r, &g) };
         if let Some(only) = only { if only != k { continue; } }
         if std::env::var("QV_TRACE_SCN").is_ok() { std::fs::write(format!("{dir}/current.txt"), scenario_coq(&s)).unwrap(); }
         let done = runtime.block_on(async { tokio::time::timeout(Duration::from_secs(hang_secs), run_scenario(&s, &cfg, cyclic)).await });
@@ -82,7 +88,11 @@ fn hist(args: &[String]) {
         };
         ops += s.ops.len() as u64; execs += j.execs; noexec += j.repairs_without_exec; queries += j.queries; nodes += s.prog.exprs.len() as u64;
         for n in s.prog.exprs.keys() { *kinds.entry(match n.kind { Kind::Normal => "normal", Kind::Firewall => "firewall", Kind::Projection => "projection", _ => "other" }).or_default() += 1; }
-        let line = format!("mkCase {} [{}]", scenario_coq(&s), res.iter().map(|x| x.coq()).collect::<Vec<_>>().join("; "));
+        let line = if res.iter().any(|x| x.state.is_some()) {
+            format!("mkCaseS {} {} [{}] [{}]", if cfg == "mem" { "true" } else { "false" }, scenario_coq(&s), res.iter().map(|x| x.coq()).collect::<Vec<_>>().join("; "), res.iter().map(|x| x.state.clone().unwrap_or_else(|| "[]".into())).collect::<Vec<_>>().join("; "))
+        } else {
+            format!("mkCase {} [{}]", scenario_coq(&s), res.iter().map(|x| x.coq()).collect::<Vec<_>>().join("; "))
+        };
         if !j.violations_c01.is_empty() && c01.len() < 3 { c01.push(format!("{{\"index\":{k},\"violation\":{:?},\"scenario\":{:?}}}", j.violations_c01[0], line)); }
         if !j.violations_c03.is_empty() && c03.len() < 3 { c03.push(format!("{{\"index\":{k},\"violation\":{:?},\"scenario\":{:?}}}", j.violations_c03[0], line)); }
         n_c01 += !j.violations_c01.is_empty() as u64; n_c03 += !j.violations_c03.is_empty() as u64;
@@ -539,6 +549,42 @@ fn fanin(args: &[String]) {
     std::process::exit(0);
 }
 
+/// C06 witness: a cycle that forms a diamond among COMPUTING queries: Root requests Left and Right
+/// from two spawned tasks, both wait on Shared, Shared -> Back -> Root closes the cycle while Right is
+/// already waiting.  Every one of the five queries lies on a cycle and must get its default (-1).
+fn diamond() {
+    let n = |i| Node { kind: Kind::Normal, idx: i };
+    let (root, left, right, shared, back) = (n(0), n(1), n(2), n(3), n(4));
+    let mut prog = Program::default();
+    let plus = |e: Expr, c: i64| Expr::Add(Box::new(e), Box::new(Expr::Const(c)));
+    prog.exprs.insert(root, Expr::Spawn(vec![left, right]));
+    prog.exprs.insert(left, plus(Expr::Read(shared), 1000));
+    prog.exprs.insert(right, plus(Expr::Delay(80, Box::new(Expr::Read(shared))), 2000));
+    prog.exprs.insert(shared, plus(Expr::Read(back), 3000));
+    prog.exprs.insert(back, plus(Expr::Delay(400, Box::new(Expr::Read(root))), 4000));
+    let runtime = rt(4);
+    let mut rounds = Vec::new();
+    for _ in 0..3 {
+        let w = World::new(prog.clone(), 0);
+        let out = runtime.block_on(async {
+            tokio::time::timeout(Duration::from_secs(20), async {
+                let engine = open_mem(&w).await;
+                { let mut s = engine.input_session().await; s.set_input(Var(0), 0).await; s.commit().await; }
+                let mut vals = Vec::new();
+                for nd in [root, left, right, shared, back] {
+                    let r = run_op(&engine, &w, &Op::Query(nd)).await;
+                    vals.push(match r.outcome { Outcome::Value(v) => v, _ => i64::MIN });
+                }
+                vals
+            }).await
+        });
+        rounds.push(out.unwrap_or_else(|_| vec![i64::MAX]));
+    }
+    let ok = rounds.iter().all(|v| *v == vec![-1, -1, -1, -1, -1]);
+    println!("{{\"all_defaults\":{ok},\"rounds\":{:?}}}", rounds);
+    std::process::exit(0);
+}
+
 fn main() {
     let args: Vec<String> = std::env::args().collect();
     if std::env::var("QV_PANIC_TRACE").is_err() { std::panic::set_hook(Box::new(|_| {})); }
@@ -551,6 +597,7 @@ fn main() {
         "f6" => f6(&args[2..]),
         "replay" => replay(&args[2..]),
         "f5" => f5(),
+        "diamond" => diamond(),
         "c04" => c04(&args[2..]),
         "crash" => crash(&args[2..]),
         "fanin" => fanin(&args[2..]),
